@@ -409,6 +409,11 @@ def binop(sx, op, a, b, st, node):
     m = sx.reg.binop(sx, op, a, b, st, node)
     if m is not None:
         return m
+    if not sx.spec_mode and all(isinstance(t, (V._Str, V._Bytes, V._Int, V._Real, V._Bool, V.Tuple, V.Opaque)) for t in (ta, tb)):
+        # an operator combination on immutable values that is not modelled: a value without contract (or TypeError)
+        from .sx import Unknown as _Unknown
+        sx.uncontracted.append("operator %s on %r, %r (line %s)" % (type(op).__name__, ta, tb, getattr(node, "lineno", "?")))
+        return [R(st, Conc(_Unknown("%s %s %s" % (ta, type(op).__name__, tb)))), R(st.fork(), None, Exc("TypeError"))]
     raise Unsupported("binary op %s on %r, %r" % (type(op).__name__, ta, tb), node)
 
 
